@@ -6,9 +6,13 @@
    like is the parameter `leaf`.
 
    Assumed of the schema (premises of every theorem, named so that they can be audited):
-     leaf_input / leaf_literal  a scalar's coerce_input / parse_literal returns a value `leaf` accepts (or "invalid");
+     leaf_input / leaf_literal  a scalar's coerce_input / parse_literal (on well-formed AST nodes) returns a value `leaf`
+                                accepts (or "invalid");
      leaf_not_none              ... never None;
-     input_fields_unique        input object field names are unique (a checked schema rule, C12).
+     input_fields_unique        input object field names are unique (the engine keeps fields in a dict: the last wins);
+     defaults_wf                default values written in the schema are well-formed AST values (what the SDL parser builds).
+   For the five BUILT-IN scalars as regenerated from /repo the first three are PROVED (Proofs/BuiltinLeaves.v), see
+   C05_builtin_scalars_meet_the_assumptions and C05_builtin_schema_delivers_declared_types below.
    Nothing is assumed of the DEFAULTS of input fields: a default that is not a valid literal of the field's type is a
    coercion error (since the repair recorded in known_findings.json; before it, the engine delivered its "undefined"
    sentinel inside the object when the object came through a variable).
@@ -18,8 +22,8 @@
    variables NESTED in list / object literals the engine does not apply the rule (known finding
    C07-nested-variable-usage), which is why it stays a premise there. *)
 From Coq Require Import ZArith List String Bool.
-From TV Require Import Py.Prelude Model.Schema Model.ImplInput Model.ImplValidate Model.SpecInput Model.SpecLiteral Model.SpecArgs
-     Model.InputTyping Proofs.InputRefine Proofs.InputTyping.
+From TV Require Import Py.Prelude Model.Schema Model.ScalarSpec Model.StdScalars Model.ImplInput Model.ImplValidate Model.SpecInput Model.SpecLiteral Model.SpecArgs
+     Model.InputTyping Proofs.InputRefine Proofs.InputTyping Proofs.BuiltinLeaves.
 Import ListNotations.
 Open Scope string_scope.
 
@@ -27,27 +31,29 @@ Section C05Typing.
 Variable sch : schema.
 Variable leaf : string -> pyval -> bool.
 Hypothesis leaf_input : forall n ops v r, scalars sch n = Some ops -> s_input ops v = Ok r -> is_undef r = false -> leaf n r = true.
-Hypothesis leaf_literal : forall n ops a r, scalars sch n = Some ops -> s_literal ops a = Ok r -> is_undef r = false -> leaf n r = true.
+Hypothesis leaf_literal : forall n ops a r, scalars sch n = Some ops -> wf_node a = true -> s_literal ops a = Ok r -> is_undef r = false -> leaf n r = true.
 Hypothesis leaf_not_none : forall n, leaf n PNone = false.
 Hypothesis input_fields_unique : forall n fields, find_type sch n = Some (DInput fields) -> NoDup (map in_name fields).
+Hypothesis defaults_wf : forall n fields f d, find_type sch n = Some (DInput fields) -> In f fields -> in_default f = Some d -> wf_lit d = true.
 
 (* a literal coerces to a value of the declared type, or to "invalid" *)
 Theorem C05_literal_result_is_typed fuel t vs l r :
   get_literal_coercer sch fuel t vs false l = Ok r -> is_undef r = false ->
-  lit_vars_typed sch leaf fuel vs t l = true ->
+  lit_vars_typed sch leaf fuel vs t l = true -> wf_lit l = true ->
   has_type sch leaf r t = true.
 Proof.
-  intros H Hu Hv. rewrite Proofs.LiteralRefine.literal_coercer_refines_spec in H.
-  exact (literal_sound sch leaf leaf_literal leaf_not_none input_fields_unique fuel t vs false l r H Hu Hv (fun E => ltac:(discriminate))).
+  intros H Hu Hv Hw. rewrite Proofs.LiteralRefine.literal_coercer_refines_spec in H.
+  exact (literal_sound sch leaf leaf_literal leaf_not_none input_fields_unique defaults_wf fuel t vs false l r H Hu Hv Hw (fun E => ltac:(discriminate))).
 Qed.
 
 (* the coerced value of a variable is a value of the variable's declared type *)
 Theorem C05_coerced_variables_are_typed fuel vds raw vals errs :
   coerce_variables sch fuel vds raw = Ok (vals, errs) ->
+  (forall vd d, In vd vds -> v_default vd = Some d -> wf_lit d = true) ->
   forall x v, In (x, v) vals -> exists vd, In vd vds /\ v_name vd = x /\ has_type sch leaf v (v_type vd) = true.
 Proof.
   rewrite coerce_variables_refines_spec.
-  exact (variables_typed sch leaf leaf_input leaf_literal leaf_not_none input_fields_unique fuel vds raw vals errs).
+  exact (variables_typed sch leaf leaf_input leaf_literal leaf_not_none input_fields_unique defaults_wf fuel vds raw vals errs).
 Qed.
 
 (* rule 5.8.5 as the engine implements it is a sub-typing check *)
@@ -58,28 +64,53 @@ Proof. exact (usage_ok_typed sch leaf ad vd v). Qed.
 (* what one argument delivers *)
 Theorem C05_delivered_argument_is_typed fuel ad floc anode vs w :
   argument_coercer sch fuel ad floc anode vs = Ok (AVal w) ->
-  arg_vars_typed sch leaf fuel ad anode vs ->
-  (forall d, in_default ad = Some d -> lit_vars_typed sch leaf fuel vs (in_type ad) d = true) ->
+  arg_vars_typed sch leaf fuel ad anode vs -> arg_lit_wf anode = true ->
+  (forall d, in_default ad = Some d -> lit_vars_typed sch leaf fuel vs (in_type ad) d = true /\ wf_lit d = true) ->
   has_type sch leaf w (in_type ad) = true.
-Proof. exact (delivered_argument_typed sch leaf leaf_literal leaf_not_none input_fields_unique fuel ad floc anode vs w). Qed.
+Proof. exact (delivered_argument_typed sch leaf leaf_literal leaf_not_none input_fields_unique defaults_wf fuel ad floc anode vs w). Qed.
 
 (* a variable that is directly the value of an argument and passes the usage rule *)
 Theorem C05_direct_variable_delivers_declared_type fuel ad floc a vs lo x vd w :
   a_value a = LVar lo x -> usage_ok ad vd = true ->
   (forall v, dict_get x vs = Some v -> is_undef v = false -> has_type sch leaf v (v_type vd) = true) ->
-  (forall d, in_default ad = Some d -> lit_vars_typed sch leaf fuel vs (in_type ad) d = true) ->
+  (forall d, in_default ad = Some d -> lit_vars_typed sch leaf fuel vs (in_type ad) d = true /\ wf_lit d = true) ->
   argument_coercer sch fuel ad floc (Some a) vs = Ok (AVal w) ->
   has_type sch leaf w (in_type ad) = true.
-Proof. exact (direct_variable_delivers_declared_type sch leaf leaf_literal leaf_not_none input_fields_unique fuel ad floc a vs lo x vd w). Qed.
+Proof. exact (direct_variable_delivers_declared_type sch leaf leaf_literal leaf_not_none input_fields_unique defaults_wf fuel ad floc a vs lo x vd w). Qed.
 
 (* the whole dictionary a resolver (or directive hook) receives *)
 Theorem C05_no_value_of_another_type_is_delivered fuel floc anodes vs ads vals errs :
   coerce_arguments_aux sch fuel ads floc anodes vs = Ok (vals, errs) ->
-  (forall ad, In ad ads -> arg_vars_typed sch leaf fuel ad (find_arg (in_name ad) anodes) vs) ->
-  (forall ad d, In ad ads -> in_default ad = Some d -> lit_vars_typed sch leaf fuel vs (in_type ad) d = true) ->
+  (forall ad, In ad ads -> arg_vars_typed sch leaf fuel ad (find_arg (in_name ad) anodes) vs /\
+                           arg_lit_wf (find_arg (in_name ad) anodes) = true) ->
+  (forall ad d, In ad ads -> in_default ad = Some d -> lit_vars_typed sch leaf fuel vs (in_type ad) d = true /\ wf_lit d = true) ->
   forall k w, In (k, w) vals -> exists ad, In ad ads /\ in_name ad = k /\ has_type sch leaf w (in_type ad) = true.
-Proof. exact (delivered_arguments_typed sch leaf leaf_literal leaf_not_none input_fields_unique fuel floc anodes vs ads vals errs). Qed.
+Proof. exact (delivered_arguments_typed sch leaf leaf_literal leaf_not_none input_fields_unique defaults_wf fuel floc anodes vs ads vals errs). Qed.
 End C05Typing.
+
+(* The five built-in scalars, as regenerated from /repo, meet the assumptions made of scalars ... *)
+Theorem C05_builtin_scalars_meet_the_assumptions O :
+  (forall n ops v r, builtin_scalars O n = Some ops -> s_input ops v = Ok r -> is_undef r = false -> builtin_leaf n r = true) /\
+  (forall n ops a r, builtin_scalars O n = Some ops -> wf_node a = true -> s_literal ops a = Ok r -> is_undef r = false -> builtin_leaf n r = true) /\
+  (forall n, builtin_leaf n PNone = false).
+Proof. exact (conj (builtin_leaf_input O) (conj (builtin_leaf_literal O) builtin_leaf_not_none)). Qed.
+
+(* ... so for a schema whose scalars are the built-in ones every entry of the argument dictionary is an in-range Int, a
+   finite Float, text, a boolean, a declared enum value, a list or an input object of such -- of the declared type *)
+Theorem C05_builtin_schema_delivers_declared_types O sch
+  (Hsc : forall n, scalars sch n = builtin_scalars O n)
+  (Huniq : forall n fields, find_type sch n = Some (DInput fields) -> NoDup (map in_name fields))
+  (Hwf : forall n fields f d, find_type sch n = Some (DInput fields) -> In f fields -> in_default f = Some d -> wf_lit d = true)
+  fuel floc anodes vs ads vals errs :
+  coerce_arguments_aux sch fuel ads floc anodes vs = Ok (vals, errs) ->
+  (forall ad, In ad ads -> arg_vars_typed sch builtin_leaf fuel ad (find_arg (in_name ad) anodes) vs /\
+                           arg_lit_wf (find_arg (in_name ad) anodes) = true) ->
+  (forall ad d, In ad ads -> in_default ad = Some d -> lit_vars_typed sch builtin_leaf fuel vs (in_type ad) d = true /\ wf_lit d = true) ->
+  forall k w, In (k, w) vals -> exists ad, In ad ads /\ in_name ad = k /\ has_type sch builtin_leaf w (in_type ad) = true.
+Proof.
+  apply (delivered_arguments_typed sch builtin_leaf); auto using builtin_leaf_not_none.
+  intros n ops a r H. rewrite Hsc in H. exact (builtin_leaf_literal O n ops a r H).
+Qed.
 
 (* non-vacuity: a schema and a leaf predicate meeting every assumption, an argument list whose
    variables meet the premises, and the delivered (well-typed) dictionary *)
@@ -100,7 +131,8 @@ Example C05_typing_assumptions_hold :
   (forall n ops v r, scalars t_schema n = Some ops -> s_input ops v = Ok r -> is_undef r = false -> t_leaf n r = true) /\
   (forall n ops a r, scalars t_schema n = Some ops -> s_literal ops a = Ok r -> is_undef r = false -> t_leaf n r = true) /\
   (forall n, t_leaf n PNone = false) /\
-  (forall n fields, find_type t_schema n = Some (DInput fields) -> NoDup (map in_name fields)).
+  (forall n fields, find_type t_schema n = Some (DInput fields) -> NoDup (map in_name fields)) /\
+  (forall n fields f d, find_type t_schema n = Some (DInput fields) -> In f fields -> in_default f = Some d -> wf_lit d = true).
 Proof.
   repeat split.
   - intros n ops v r H. cbn in H. unfold t_scalars in H. destruct (String.eqb n "Int") eqn:E; [|discriminate].
@@ -122,6 +154,9 @@ Proof.
   - intros n fields H. unfold find_type in H. cbn in H.
     destruct (String.eqb n "Int"); [discriminate|]. destruct (String.eqb n "Box"); [|discriminate].
     injection H as <-. cbn. repeat constructor; cbn; intuition discriminate.
+  - intros n fields f d H. unfold find_type in H. cbn in H.
+    destruct (String.eqb n "Int"); [discriminate|]. destruct (String.eqb n "Box"); [|discriminate].
+    injection H as <-. intros [<-|[<-|[]]]; cbn; intros E; [injection E as <-; reflexivity|discriminate].
 Qed.
 
 Example C05_typing_nonvacuous :
@@ -148,3 +183,5 @@ Print Assumptions C05_usage_rule_is_subtyping.
 Print Assumptions C05_delivered_argument_is_typed.
 Print Assumptions C05_direct_variable_delivers_declared_type.
 Print Assumptions C05_no_value_of_another_type_is_delivered.
+Print Assumptions C05_builtin_scalars_meet_the_assumptions.
+Print Assumptions C05_builtin_schema_delivers_declared_types.
